@@ -1,5 +1,7 @@
+pub mod c15;
 pub mod c19;
 pub mod c20;
+pub mod corridor;
 pub mod path_geometry;
 pub mod powertrain;
 pub mod slts;
@@ -23,6 +25,7 @@ pub fn registry() -> Vec<&'static dyn Property> {
         &train_props::C12,
         &speed_profile::C13,
         &train_props::C14,
+        &c15::C15,
         &c19::C19,
         &c20::C20,
     ]
